@@ -16,7 +16,7 @@ from facts import AnalysisBroken
 from prog import walk, kids, short
 from rules.atoms import cn, conj, facts_atoms, norm_atom, _unbool
 from rules.bound import Bound, hull
-from rules.common import strip_casts, const_of, guard_facts, counting_for, for_init_const
+from rules.common import strip_casts, const_of, guard_facts, counting_for, for_init_const, all_guards
 from rules.effects import single_def
 
 LEVEL = 'other'
@@ -86,19 +86,28 @@ def r1(ctx, p):
                                                                                            if x['k'] in ('BinaryOperator', 'CompoundAssignOperator') and x.get('op', '').endswith('=') and
                                                                                            x.get('op') not in ('==', '!=', '<=', '>=') and cn(sp, kids(x)[0]) == 'key']
     ctx.ob('C14.R1.same-key', 'score_pawns', ok, 'lookup and store use the position\'s pawn key, unchanged in between', site=sp.loc())
-    rets = [n for n in sp.all_nodes() if n['k'] == 'ReturnStmt']
+    # per case of the lookup: a hit returns the slot's value; a miss computes white minus black, stores it under the key and returns it
+    from rules.norm import Norm, decision, Unknown
     okr = False
-    if len(rets) == 2 and ins:
-        hit = [r for r in rets if any(cn(sp, c) == 'found' and t for c, t in guard_facts(sp, r))]
-        miss = [r for r in rets if r not in hit]
-        if len(hit) == 1 and len(miss) == 1:
-            stored = cn(sp, kids(ins[0])[2], inline=True)
-            okr = cn(sp, kids(hit[0])[0]).endswith('entry.value') or cn(sp, kids(hit[0])[0]).endswith('.value') or 'value' in cn(sp, kids(hit[0])[0])
-            okr = okr and cn(sp, kids(miss[0])[0], inline=True).replace('Score(', '').rstrip(')') in (stored, stored.rstrip(')')) or \
-                (okr and stored in cn(sp, kids(miss[0])[0], inline=True))
-            okr = okr and sp.cfg.node_dominates(ins[0], miss[0])
-            terms = sorted(p.funcs[c].targs for n, c, nm in sp.calls() if nm == PS + 'score_pawns_for_side' and c in p.funcs)
-            okr = okr and terms == ['engine::BLACK', 'engine::WHITE']
+    try:
+        res = {}
+        for hit in (True, False):
+            nmc = Norm(sp, assume={('truthy', 'found', True): hit})
+            r = decision(sp, {('truthy', 'found', True): hit}, nmc)
+            res[hit] = (nmc.s(kids(r)[0]) if r is not None else None, nmc, r)
+        hit_s, miss_s = res[True][0], res[False][0]
+        stored = None
+        if len(ins) == 1:
+            nmm = res[False][1]
+            feasible = all(nmm.cval(c) is not None and bool(nmm.cval(c)) == t for c, t in all_guards(sp, ins[0]))
+            reached_on_hit = all(res[True][1].cval(c) is not None and bool(res[True][1].cval(c)) == t for c, t in all_guards(sp, ins[0]))
+            if feasible and not reached_on_hit:
+                stored = nmm.s(kids(ins[0])[2])
+        terms = sorted(p.funcs[c].targs for n, c, nm in sp.calls() if nm == PS + 'score_pawns_for_side' and c in p.funcs)
+        okr = hit_s is not None and hit_s.endswith('.value') and '_pawn_hash_table.probe(' in hit_s.replace('this.', '') and \
+            miss_s is not None and miss_s == stored and 'score_pawns_for_side' in miss_s and terms == ['engine::BLACK', 'engine::WHITE']
+    except Unknown as u:
+        raise AnalysisBroken('C14: score_pawns branches on `%s`, which the rule does not know' % u)
     ctx.ob('C14.R1.hit-equals-miss', 'score_pawns', bool(okr),
            'a cache hit returns the stored value and a miss stores and returns the freshly computed value of the same expression', site=sp.loc())
     ctx.assume('the pawn key is a function of the pawn placement only (C04: pawn key purity)')
@@ -154,6 +163,30 @@ def r2(ctx, p):
             elif r['k'] in ('InitListExpr', 'CXXConstructExpr') and kids(r) and all(const_of(strip_casts(z)) is not None or not kids(z) for z in kids(r)):
                 vals = [const_of(strip_casts(z)) if const_of(strip_casts(z)) is not None else 0 for z in kids(r)]
                 cleared = dict(zip(['key', 'epoch', 'value'], vals + [0] * 3))
+        # other spellings of "give every slot this value": std::fill / std::fill_n / assign over the whole container
+        recognised = len(loops) == 1 and len(st) == 1
+        if not recognised:
+            for x, cfid2, nm2 in clear.calls():
+                a2 = kids(x)[1:]
+                val2 = None
+                if nm2 == 'std::fill' and len(a2) == 3 and [cn(clear, y).replace('this.', '') for y in a2[:2]] == ['data_.begin()', 'data_.end()']:
+                    val2 = a2[2]
+                elif nm2 == 'std::fill_n' and len(a2) == 3 and cn(clear, a2[0]).replace('this.', '') == 'data_.begin()' and \
+                        (const_of(strip_casts(a2[1])) == int(cta.split(',')[-1]) or cn(clear, a2[1]).replace('this.', '') == 'data_.size()'):
+                    val2 = a2[2]
+                elif short(nm2) == 'assign' and 'data_' in cn(clear, x) and len(a2) == 2 and \
+                        (const_of(strip_casts(a2[0])) == int(cta.split(',')[-1]) or cn(clear, a2[0]).replace('this.', '') == 'data_.size()'):
+                    val2 = a2[1]
+                if val2 is not None:
+                    r = _unbool(val2)
+                    while r['k'] in ('MaterializeTemporaryExpr', 'CXXBindTemporaryExpr', 'ExprWithCleanups', 'CXXFunctionalCastExpr') and kids(r):
+                        r = _unbool(kids(r)[-1])
+                    if r['k'] in ('CXXTemporaryObjectExpr', 'CXXConstructExpr', 'InitListExpr', 'CXXScalarValueInitExpr') and not kids(r):
+                        cleared = {'key': 0, 'epoch': 0, 'value': 0}
+                        full = True
+                        recognised = True
+        if not recognised:
+            raise AnalysisBroken('C14: %s::clear() is written in a form the rule does not know' % cls)
         ctx.ob('C14.R2.clear-covers', tag, full, 'clear() visits every slot of the table', site=clear.loc())
         # a cleared slot must fail the hit test for every key: some marker atom must be false on the cleared entry
         rejects = False
@@ -269,8 +302,8 @@ def r4(ctx, p, eg):
     ctx.ob('C14.R4.general-bound', 'PositionScorer::score', ok,
            'every result of the evaluation lies in [%d, %d], strictly inside the non-mate range (-%d, %d) and away from VALUE_NONE = %d'
            % (r[0], r[1], lim, lim, none), site=sc.loc(), detail={'returns': [(l, list(v)) for l, v in sites],
-                                                                  'per function': {k.split('(')[0]: list(v[0]) for k, v in b.memo.items()}})
-    ctx.info['bounds'] = {k.split('(')[0]: list(v[0]) for k, v in b.memo.items()}
+                                                                  'per function': {(k if isinstance(k, str) else k[0]).split('(')[0]: list(v[0]) for k, v in b.memo.items()}})
+    ctx.info['bounds'] = {(k if isinstance(k, str) else k[0]).split('(')[0]: list(v[0]) for k, v in b.memo.items()}
     for a in sorted(b.assumed):
         ctx.assume(a)
 
@@ -332,7 +365,7 @@ def r5(ctx, p):
                     if tuple(cn(f, i) for i in idx2) == elem and asg is not None and asg.get('op') == '=' and kids(asg)[0] is cur2 and \
                             f.cfg.node_dominates(asg, cur) and not f.inside(cur, asg):
                         dom = True
-                ok = own and (dom or (ak == 'call' and _out_param_written_first(p, f, cur)))
+                ok = own and (dom or (ak in ('call', 'rmw') and _out_param_written_first(p, f, cur)))
                 what = 'setup reads only its own colour\'s element %s%s after assigning it' % (m, ''.join('[%s]' % e for e in elem))
             else:
                 ok = f.id in later_reach and f.id not in early_reach and f.id not in setup_reach or short(f.name) == 'print_stats'
